@@ -118,6 +118,8 @@ func checkC10(c *core.Ctx) {
 	checkErrorRecording(c, p)
 	// ---- R7
 	checkBlockCommentLength(c, p)
+	// ---- R8
+	checkParserBounds(c, p, "R8")
 	// ---- R4
 	checkDecodeIntegerFence(c, p)
 	// ---- R5
